@@ -118,6 +118,8 @@ def pivot():
                       derives=d, std_derives=std, repr="u8", note="expressions whose value depends on being typed at the repr type (u8): !0 >> 1, !0 / 4"))
     S.append(EnumSpec("ExprTy16", [U("A", disc="!0 >> 4", disc_val=0x0fff), U("B"), U("C", disc="1 << 15", disc_val=32768), U("D")],
                       derives=d, std_derives=std, repr="u16", note="u16: !0 >> 4, 1 << 15"))
+    S.append(EnumSpec("ExprTy8Apart", [U("One", disc="1", disc_val=1), U("Q", disc="!0 / 4", disc_val=63), U("S", disc="!0 >> 4", disc_val=15), U("T", disc="200", disc_val=200)],
+                      derives=d, std_derives=std, repr="u8", note="width-sensitive expressions with NO implicit successor: a derive that evaluates them at another width still compiles (0 and 255) - the silent form of c06-r6a"))
     S.append(EnumSpec("ExprTy64", [U("A", disc="1 << 31", disc_val=2**31), U("B"), U("C", disc="1 << 40", disc_val=2**40), U("H", disabled=True), U("D")],
                       derives=d, std_derives=std, repr="u64", note="u64: 1 << 31 and 1 << 40 (overflow i32 arithmetic)"))
     S.append(EnumSpec("ExprTyI64", [U("A", disc="1 << 31", disc_val=2**31), U("B"), U("C", disc="-(1 << 40)", disc_val=-2**40), U("D")],
